@@ -32,7 +32,10 @@ def check_report(outcome, world_files, dry_run=False, sast_ids=None):
         problems.append(("schema", {"path": "/".join(map(str, err.path)), "message": err.message[:200]}))
     results = rep.get("results", [])
     ids = [r.get("codemod") for r in results]
-    if ids != outcome.get("codemod_ids", []):
+    executed = outcome.get("codemod_ids", [])
+    # when nothing was scanned (no files / no codemods) the progress markers are absent: the results then list the
+    # selected codemods, which the statement does not forbid
+    if executed and ids != executed:
         problems.append(("results-vs-execution-order", {"report": ids[:20], "executed": outcome.get("codemod_ids", [])[:20]}))
     if len(set(ids)) != len(ids):
         problems.append(("duplicate-result", {"ids": ids[:20]}))
